@@ -256,6 +256,8 @@ def run(ctx):
                 for lmin in (1, 2, 3):
                     check_scalars(ctx, rp, n, expd, expv, expw, lmin, ts)
 
+    scalar_correspondence(ctx)
+
     # ---------------- sequential vs matrix on generic float data ----------
     # (implementation-only stream: thresholds that are not float32-exact)
     nseq = 150 if quick else 1500
@@ -284,8 +286,61 @@ def run(ctx):
                       "matrix_mode": res[False], "sequential_mode": res[True]})
 
 
+SCAL = []   # (request, {measure: implementation value}) for the model correspondence
+
+
+def scalar_correspondence(ctx):
+    """the Lean `scalars` (numerators, denominators, maximal length, entropy weights) against the
+    implementation's scalar RQA methods: value = num / (den + _epsilon), entropy = -sum p log p
+    over the model's weights (numpy's log is not modelled)."""
+    if not SCAL:
+        return
+    eps = 1e-8
+    model = common.driver(ctx.pid, [r for r, _ in SCAL])
+    bad = []
+    ncmp = 0
+    for (req, impl), ans in zip(SCAL, model):
+        try:
+            num, den, cnt, ml, wts = ans.split(" ")
+            num, den, cnt, ml = int(num), int(den), int(cnt), int(ml)
+            wts = [] if wts == "-" else [int(x) for x in wts.split(",")]
+        except ValueError:
+            bad.append(f"{req} :: model={ans[:80]}")
+            continue
+        p = np.array(wts, dtype=float) / (float(sum(wts)) + eps)
+        exp = {"ratio": num / (den + eps), "avg": num / (cnt + eps), "max": ml,
+               "entropy": float(-(p * np.log(p)).sum()) if wts else 0.0}
+        for k, got in impl.items():
+            ncmp += 1
+            e = exp[k.split(":")[0]]
+            if not abs(got - e) <= 1e-9 * max(1.0, abs(e)):
+                bad.append(f"{req} :: {k} model={e} impl={got}")
+    ctx.obligation(f"correspondence: Lean scalar RQA functions == RecurrencePlot scalar methods "
+                   f"({len(SCAL)} histograms, {ncmp} values)", "correspondence", not bad,
+                   "\n".join(bad[:6]))
+    ctx.extra["scalar_values_compared"] = ncmp
+
+
 def check_scalars(ctx, rp, n, d, v, w, lmin, ts):
     eps = 1e-8
+    try:
+        hs = {"d": rp.diagline_dist(), "v": rp.vertline_dist(), "w": rp.white_vertline_dist()}
+        names = {"d": (("ratio:determinism", "determinism"), ("avg:average_diaglength", "average_diaglength"),
+                       ("entropy:diag_entropy", "diag_entropy"), ("max:max_diaglength", "max_diaglength")),
+                 "v": (("ratio:laminarity", "laminarity"), ("avg:trapping_time", "trapping_time"),
+                       ("avg:average_vertlength", "average_vertlength"),
+                       ("entropy:vert_entropy", "vert_entropy"), ("max:max_vertlength", "max_vertlength")),
+                 "w": (("avg:mean_recurrence_time", "mean_recurrence_time"),
+                       ("avg:average_white_vertlength", "average_white_vertlength"),
+                       ("entropy:white_vert_entropy", "white_vert_entropy"),
+                       ("max:max_white_vertlength", "max_white_vertlength"))}
+        for key, h in hs.items():
+            impl = {}
+            for tag, nm in names[key]:
+                impl[tag] = float(getattr(rp, nm)() if tag.startswith("max") else getattr(rp, nm)(lmin))
+            SCAL.append((f"scalars {lmin} " + (",".join(str(int(x)) for x in h) or "-"), impl))
+    except Exception:  # noqa  (exceptions are reported by the oracle part below)
+        pass
 
     def psum(h, m):
         return sum((i + 1) * h[i] for i in range(m - 1, len(h)))
